@@ -255,6 +255,13 @@ theorem sessOp_one (cfg : Cfg) (n : Node) (sid : Nat) (mode : Mode) (op : Op) (h
       · cases hg : getFabric n mode.fab with
         | none => exact one_of_quiet (quiet_refl n)
         | some f => exact write_one n f { f with label := v }
+  | fwrite s =>
+    simp only [sessOp]
+    split
+    · exact one_of_quiet (quiet_refl n)
+    · cases hg : getFabric n mode.fab with
+      | none => exact one_of_quiet (quiet_refl n)
+      | some f => exact write_one n f f
   | complete s => exact absurd rfl (hnc s)
   | rmfab s idx =>
     simp only [sessOp]
